@@ -33,9 +33,9 @@ CONFIG = dict(
                      dict(name="seed2", env={"VERIF_N": "60000"}, seed_offset=1000, timeout=1500),
                      dict(name="exh", test="TestExhaustive", timeout=1500)],
     },
-    trivial=r"^(bad-op|r=(refused|none|-|ack:none|info) pub= stop=0 sent= st=working)$",
+    trivial=r"^(bad-op|r=(refused|none|-|ack:none|info) pub= upd= stop=0 sent= st=working)$",
     rule="cases generated from one PRNG (VERIF_SEED): hosted service sets of size 0-4 (scripted raw actors whose support answer is an "
-         "explicit op, real NodeServices answering ok / no / without listener, unreachable services) x StopNode regime of the recording INodeApp (completion later through an op / inside the call with true / with false) x histories of up to 14 ops over "
+         "explicit op, real NodeServices answering ok / no / without listener, unreachable services) x StopNode regime of the recording INodeApp (completion later through an op / inside the call with true / with false) x provider latency (the real App.UpdateNodeState with a stub cluster provider whose k-th update takes 0-500 ms of virtual time: none / random / first slow then fast) x histories of up to 14 ops over "
          "{stat, retire, exit, web_retire, web_exit, web_nodes, unknown commands, support answer ok/other by service i, retired by "
          "service i / unknown name / out-of-range index, other service commands, StopNode completion true/false, 40 s time-out}; two "
          "thirds of the cases follow the intended life cycle with random insertions, omissions and repetitions (so that exiting/exited "
@@ -52,6 +52,7 @@ CONFIG = dict(
     assumptions=[
         "every command, notification, query answer and StopNode completion runs on the admin service goroutine one at a time (actor model)",
         "INodeApp.StopNode invokes its completion callback at most once per call (later, or inside the call: both regimes are modelled and driven)",
+        "only the order in which publications reach the provider is observed, not their latency (an ordered asynchronous publisher would not be flagged)",
         "hosted service names are distinct and FilterSelfServices enumerates the same set every time",
         "a service 'declares support' by answering the controller's queryretire with exactly \"ok\" before the request times out (30 s)",
     ],
